@@ -450,4 +450,48 @@ theorem reconstruct_fill (sid : Nat → Nat) (blk pre pool : List Nat) (slots : 
       have : x ∈ pool := (List.mem_filter.mp (by rw [hf]; simp : x ∈ pool.filter (fun w => sid w == sid b))).1
       exact hbp (hx ▸ this)
 
+/-! ### `PartialBlock.fill` itself -/
+
+theorem missing_count : ∀ (slots : List Slot) (blk : List Nat),
+    ((partialView slots blk).filter Option.isNone).length = (missingOf slots blk).length
+  | [], _ => by simp [partialView, missingOf]
+  | _ :: _, [] => by simp [partialView, missingOf]
+  | .pool w :: r, b :: bs => by simp [partialView, missingOf, missing_count r bs]
+  | .prefilled :: r, b :: bs => by simp [partialView, missingOf, missing_count r bs]
+  | .missing :: r, b :: bs => by simp [partialView, missingOf, missing_count r bs]
+
+theorem fillGo_view : ∀ (slots : List Slot) (blk : List Nat), slots.length = blk.length →
+    fillGo (partialView slots blk) (missingOf slots blk) = fill slots blk
+  | [], [], _ => rfl
+  | [], _ :: _, h => by simp at h
+  | _ :: _, [], h => by simp at h
+  | .pool w :: r, b :: bs, h => by
+    have ih := fillGo_view r bs (by simpa using h)
+    unfold fill at ih ⊢
+    simp only [partialView, missingOf, fillGo, List.zip_cons_cons, List.map_cons, ih]
+  | .prefilled :: r, b :: bs, h => by
+    have ih := fillGo_view r bs (by simpa using h)
+    unfold fill at ih ⊢
+    simp only [partialView, missingOf, fillGo, List.zip_cons_cons, List.map_cons, ih]
+  | .missing :: r, b :: bs, h => by
+    have ih := fillGo_view r bs (by simpa using h)
+    unfold fill at ih ⊢
+    simp only [partialView, missingOf, fillGo, List.zip_cons_cons, List.map_cons, ih]
+
+/-- T6 on `PartialBlock.fill` as the code has it: the partial block `reconstruct` returns, filled with the
+    block's transactions at the missing positions (a `blocktxn` answer), is accepted (the count is right)
+    and IS the block -- under the hypotheses of `reconstruct_fill`. -/
+theorem fillP_reconstruct (sid : Nat → Nat) (blk pre pool : List Nat) (slots : List Slot)
+    (hcount : (freePos pre blk.length).length + pre.length = blk.length)
+    (hcoll : ∀ w ∈ pool, ∀ j ∈ freePos pre blk.length, ∀ b, blk[j]? = some b → sid w = sid b → w = b)
+    (h : reconstruct pre ((freePos pre blk.length).map fun j => sid (blk.getD j 0))
+          (pool.map fun w => (sid w, w)) = .ok slots) :
+    fillP (partialView slots blk) (missingOf slots blk) = .ok blk := by
+  have hlen : slots.length = blk.length := by
+    have := (reconstruct_slots _ _ _ _ h).1
+    simpa [hcount] using this
+  have hf := (reconstruct_fill sid blk pre pool slots hcount hcoll h).1
+  unfold fillP
+  rw [missing_count, if_neg (by simp), fillGo_view slots blk hlen, hf]
+
 end Btc.CompactBlocks
